@@ -247,6 +247,21 @@ def check_protocol(ctx):
     s_p, res_p, pip_p = f.params()[0], f.params()[1], f.params()[2]
     posts = [c for c in calls_named(f, "post")]
     ctx.ob(3, "K3", "a scheduling round makes at most one POST", len(posts) == 1, f, posts[0] if posts else f.node, construct="requests.post site", detail=f"{len(posts)}")
+    # ... and the transport does not make it twice behind the bridge's back: /schedule is not idempotent (the external scheduler has consumed the
+    # tick's arrivals and results when it answers), so no retrying adapter may sit between the bridge and the wire
+    resend = []
+    for n in ast.walk(f.mod.tree):
+        if isinstance(n, ast.Call):
+            nm = norm.call_name(n)
+            if nm == "Retry" or nm == "mount":
+                resend.append(n)
+            mr = norm.kwarg(n, "max_retries")
+            if mr is not None and not (isinstance(mr, ast.Constant) and mr.value in (0, None, False)):
+                resend.append(n)
+    plain = bool(posts) and all(isinstance(c.func, ast.Attribute) and norm.is_name(c.func.value, "requests") for c in posts)
+    ctx.ob(3, "K3", "a request that was sent is never sent again: the bridge posts with requests.post itself or through a transport without a retry policy", plain or not resend,
+           f, resend[0] if resend else (posts[0] if posts else f.node), construct="no retrying transport",
+           detail=f"POST through {[norm.U(c.func) for c in posts]}; retry configuration in the module: {[norm.U(r)[:60] for r in resend]}")
     if len(posts) != 1:
         return
     post = posts[0]
